@@ -265,6 +265,18 @@ func (g *Gen) enum(name string, pkgLevel bool) *Enum {
 			break
 		}
 	}
+	if pkgLevel {
+		eff := e.Prefix
+		if eff == "" {
+			eff = strcase.ToScreamingSnake(name) + "_"
+		}
+		if e.Prefix == "" && g.prefixes[eff] {
+			g.counter++
+			e.Prefix = fmt.Sprintf("P%d_", g.counter)
+			eff = e.Prefix
+		}
+		g.prefixes[eff] = true
+	}
 	e.Opts = g.enumOpts(e.Prefix, name)
 	return e
 }
@@ -562,8 +574,18 @@ func (g *Gen) typed(kind, propName string, depth int, path []string, taken map[s
 			if taken["pfx:"+t.Prefix] {
 				t.Prefix = ""
 			}
-			taken["pfx:"+t.Prefix] = true
 		}
+		// enum values live in the scope enclosing the enum: the effective prefix must be unique there
+		effPfx := t.Prefix
+		if effPfx == "" {
+			effPfx = strcase.ToScreamingSnake(eff) + "_"
+		}
+		if taken["pfx:"+effPfx] {
+			g.counter++
+			t.Prefix = fmt.Sprintf("E%d_", g.counter)
+			effPfx = t.Prefix
+		}
+		taken["pfx:"+effPfx] = true
 		t.Opts = g.enumOpts(t.Prefix, eff)
 		if len(t.Opts) == 0 {
 			t.Opts = []string{"ONLY"} // an inline enum without options parses to an unset schema
